@@ -26,15 +26,17 @@ Theorem C04_refine_step : forall es o so,
   abs_op o = Some so -> in_scope o ->
   match nd_step py_split (absE es) so with
   | Some r => sr_err (step es o) = None /\ abs_sres (step es o) = r
-  | None => sr_err (step es o) <> None /\ sr_cont (step es o) = es
+  | None => sr_err (step es o) <> None /\ (atomic o -> sr_cont (step es o) = es)
   end.
 Proof. exact refine_step. Qed.
 Print Assumptions C04_refine_step.
 
 (* 3. histories: for ALL operation lists (no bound), from any well-formed state, the abstraction of the model's final
-   state is the replay of the same history on the nested dict; well-formedness (unique keys per node) is invariant. *)
+   state is the replay of the same history on the nested dict; well-formedness (unique keys per node) is invariant.
+   nd_ok: the non-atomic operations of the history succeed on the nested dict (a hypothesis on the spec side only). *)
 Theorem C04_history : forall ops sops es, wfE es ->
   Forall2 (fun o so => abs_op o = Some so /\ in_scope o /\ values_wf o) ops sops ->
+  nd_ok (absE es) ops sops ->
   absE (run es ops) = nd_run (absE es) sops /\ wfE (run es ops).
 Proof. exact history. Qed.
 Print Assumptions C04_history.
@@ -160,14 +162,23 @@ Print Assumptions C04_contains_spelling_refuted.
 (* ------------------------------------------------------------------------------------------------------------
    non-vacuity: a three-level tree with an empty nested node and a non-tensor leaf meets the hypotheses *)
 Example C04_ex_wf : wfE ex_tree. Proof. exact ex_tree_wf. Qed.
+Definition ex_ops : list op :=
+  [OSet (KT [KS "n"; KT [KS "b"; KS "c"]]) (Leaf LT 9);            (* through a leaf: raises, state unchanged *)
+   ORename (KT [KS "n"; KS "b"]) (KT [KT [KS "n"]]) false;          (* new key is a prefix of the old one *)
+   OUpdate [(KT [KS "u"; KS "v"], Node [("w", Leaf LS 4)]); (KS "u", Node [("v", Node [("x", Leaf LT 5)])])];
+   OPop (KS "zz") (Some 5%Z); OSetDefault (KT [KS "q"; KS "r"]) (Node []); ODel (KS "a"); OFilterEmpty].
+
 Example C04_ex_history :
-  let ops := [OSet (KT [KS "n"; KT [KS "b"; KS "c"]]) (Leaf LT 9);            (* through a leaf: raises, state unchanged *)
-              ORename (KT [KS "n"; KS "b"]) (KT [KT [KS "n"]]) false;          (* new key is a prefix of the old one *)
-              OPop (KS "zz") (Some 5%Z); OSetDefault (KT [KS "q"; KS "r"]) (Node []); ODel (KS "a"); OFilterEmpty] in
-  Forall (fun o => exists so, abs_op o = Some so /\ in_scope o /\ values_wf o) ops
-  /\ run ex_tree ops = [("n", Leaf LT 2%Z); ("s", Leaf LS 3%Z)].
+  exists sops,
+    Forall2 (fun o so => abs_op o = Some so /\ in_scope o /\ values_wf o) ex_ops sops
+    /\ nd_ok (absE ex_tree) ex_ops sops
+    /\ run ex_tree ex_ops =
+       [("n", Leaf LT 2%Z); ("s", Leaf LS 3%Z); ("u", Node [("v", Node [("w", Leaf LS 4%Z); ("x", Leaf LT 5%Z)])])].
 Proof.
-  split; [|reflexivity].
-  repeat constructor; eexists; (split; [reflexivity|]); split; cbn; try exact I; try constructor; try (repeat constructor).
-  intros [r [N E]]. cbn in E. destruct r; [congruence|discriminate].
+  eexists. split; [|split].
+  - unfold ex_ops. repeat (apply Forall2_cons; [split; [reflexivity|split]|]); try apply Forall2_nil; cbn;
+      try exact I; try (repeat constructor; cbn; intuition discriminate).
+    intros [r [N E]]. cbn in E. destruct r; [congruence|discriminate].
+  - vm_compute. tauto.
+  - reflexivity.
 Qed.
